@@ -20,6 +20,7 @@ from phyclone.mcmc.particle_gibbs import (
 from phyclone.process_trace import create_main_run_output
 from phyclone.smc.kernels import BootstrapKernel, FullyAdaptedKernel, SemiAdaptedKernel
 from phyclone.smc.samplers import UnconditionalSMCSampler
+from phyclone.smc.utils import RootPermutationDistribution
 from phyclone.tree import FSCRPDistribution, Tree, TreeJointDistribution
 from phyclone.utils import Timer
 from phyclone.utils.dev import clear_proposal_dist_caches
@@ -413,7 +414,9 @@ def setup_kernel(outlier_prob, proposal, rng, tree_dist):
     elif proposal == "semi-adapted":
         kernel_cls = SemiAdaptedKernel
 
-    kernel = kernel_cls(tree_dist, rng, outlier_proposal_prob=outlier_proposal_prob)
+    kernel = kernel_cls(
+        tree_dist, rng, outlier_proposal_prob=outlier_proposal_prob, perm_dist=RootPermutationDistribution()
+    )
     return kernel
 
 
